@@ -13,7 +13,7 @@ CLANG = "clang++-14"
 CLANG_FLAGS = ["-std=c++17", "-O1", "-fno-vectorize", "-fno-slp-vectorize", "-fno-unroll-loops",
                "-ffp-contract=off", "-fno-access-control", "-DRKCOMMON_VERIF", "-Wno-everything"]
 CBMC_FLAGS = ["--unwinding-assertions", "--signed-overflow-check", "--undefined-shift-check",
-              "--drop-unused-functions", "--no-malloc-may-fail", "--object-bits", "10", "--json-ui", "--trace", "--verbosity", "8"]
+              "--drop-unused-functions", "--no-malloc-may-fail", "--json-ui", "--trace", "--verbosity", "8"]
 NCPU = int(os.environ.get("VP_JOBS", "16"))
 
 
@@ -34,7 +34,10 @@ class CbmcUnit:
     kind = "cbmc"
 
     def __init__(self, name, src, entries, defines=(), heap_max=64, opaque=(), race=False, threads=False,
-                 validate=True, extra_src=(), assumptions=(), stubs=(), native_defines=(), cbmc_flags=()):
+                 validate=True, extra_src=(), assumptions=(), stubs=(), native_defines=(), cbmc_flags=(), mem_unwind=None, object_bits=8, elem_unwind=6):
+        self.elem_unwind = elem_unwind
+        self.object_bits = object_bits
+        self.mem_unwind = mem_unwind if mem_unwind is not None else 18
         self.name = name
         self.src = src
         self.entries = entries
@@ -111,6 +114,10 @@ def fn_hashes(mod, names):
     return out
 
 
+import threading
+_BUILD_LOCK = threading.Lock()
+
+
 class CbmcVariant:
     """one compiled variant (set of defines) of a unit"""
 
@@ -140,11 +147,16 @@ class CbmcVariant:
                            [n for n in mod.funcs if g.is_opaque_fn(n) and not mod.funcs[n].is_decl]
         self.c = self.base + ".c"
         open(self.c, "w").write(txt)
+        # byte/element copy helpers get their own (larger) unwinding bound: --unwindset
+        helpers = set(re.findall(r"static void (vp_(?:copy|zero)_\w+)\(", txt))
+        self.helper_loops = ["vp_memcpy.0", "vp_memmove.0", "vp_memmove.1", "vp_memset.0", "vp_str_copy.0", "vp_str_move.0", "vp_str_move.1"]
+        for hname in sorted(helpers):
+            self.helper_loops += [hname + ".0"] + ([hname + ".1"] if hname.startswith("vp_copy_") else [])
         funcs, _ = g.reachable(entries)
         self.encoded = fn_hashes(mod, funcs)
         self.entries_present = set(entries)
         self.mod = mod
-        cdefs = ["-DVP_HEAP_MAX=%d" % u.heap_max]
+        cdefs = ["-DVP_HEAP_MAX=%d" % u.heap_max, "-DVP_NOBJ=%d" % (1 << u.object_bits)]
         if u.threads:
             cdefs.append("-DVP_THREADS")
         if u.race:
@@ -162,6 +174,10 @@ class CbmcVariant:
 
     # ---- native builds (replay + translation validation)
     def build_native(self):
+        with _BUILD_LOCK:
+            return self._build_native()
+
+    def _build_native(self):
         if getattr(self, "native", None):
             return self.native
         u = self.unit
@@ -179,6 +195,10 @@ class CbmcVariant:
         return exe
 
     def build_cnative(self):
+        with _BUILD_LOCK:
+            return self._build_cnative()
+
+    def _build_cnative(self):
         if getattr(self, "cnative", None):
             return self.cnative
         exe = self.base + "_cnative"
@@ -261,8 +281,10 @@ def run_cbmc_entry(var, entry, witness=False):
     u = var.unit
     gb = var.gbw if witness else var.gb
     cmd = ["cbmc", gb, "--function", "ir_" + entry.name, "--unwind", str(entry.unwind)]
-    if entry.unwindset:
-        cmd += ["--unwindset", ",".join("%s:%d" % kv for kv in entry.unwindset.items())]
+    us = dict((l, (u.elem_unwind if l.startswith(("vp_copy_", "vp_zero_")) else u.mem_unwind)) for l in getattr(var, "helper_loops", []))
+    us.update(entry.unwindset)
+    if us:
+        cmd += ["--unwindset", ",".join("%s:%d" % kv for kv in sorted(us.items()))]
     flags = [f for f in CBMC_FLAGS]
     if witness:
         flags = [f for f in flags if f not in ("--unwinding-assertions", "--signed-overflow-check",
@@ -270,6 +292,7 @@ def run_cbmc_entry(var, entry, witness=False):
         flags += ["--no-standard-checks", "--no-unwinding-assertions"]
     if entry.paths:
         flags += ["--paths", "lifo"]
+    cmd += ["--object-bits", str(u.object_bits)]
     cmd += flags + entry.flags + u.cbmc_flags
     rc, so, se, dt = run(cmd, timeout=entry.timeout, mem_gb=float(os.environ.get("VP_MEM_GB", "24")))
     results, data, stats = parse_cbmc_json(so)
@@ -347,7 +370,8 @@ def validate_translation(var, work, seed, nruns=24):
 
 # ---------------------------------------------------------------------------- SMT units (ll2smt)
 class SmtEntry:
-    def __init__(self, name, mode="FP", int_mode="BV", timeout_ms=30000, desc="", approx_err=None, max_paths=512, witness=True, wall=900):
+    def __init__(self, name, mode="FP", int_mode="BV", timeout_ms=30000, desc="", approx_err=None, max_paths=512, witness=True, wall=900, underflow_check=True):
+        self.underflow_check = underflow_check
         self.name, self.mode, self.int_mode, self.timeout_ms, self.desc = name, mode, int_mode, timeout_ms, desc
         self.approx_err, self.max_paths, self.witness, self.wall = approx_err, max_paths, witness, wall
 
@@ -387,7 +411,10 @@ class SmtUnit:
                    "--timeout-ms", str(e.timeout_ms), "--max-paths", str(e.max_paths)]
             if e.approx_err is not None:
                 cmd += ["--approx-err", str(e.approx_err)]
-            futs.append((e, pool.submit(run, cmd, e.wall)))
+            env = dict(os.environ)
+            if not e.underflow_check:
+                env["VP_NO_UNDERFLOW_CHECK"] = "1"
+            futs.append((e, pool.submit(run, cmd, e.wall, env)))
         rep.stubs.extend(self.stubs)
         rep.assumptions.extend(self.assumptions)
         uinfo = {"unit": self.name, "src": self.src, "defines": self.defines, "entries": []}
@@ -485,6 +512,10 @@ class _SmtNative:
         self.native = None
 
     def build_native(self):
+        with _BUILD_LOCK:
+            return self._build_native()
+
+    def _build_native(self):
         if self.native:
             return self.native
         u = self.unit
